@@ -3,10 +3,10 @@ from __future__ import annotations
 
 from typing import Dict, List, Optional, Sequence, Tuple
 
-from .rules import cost, decode, dp, events, geom, purity, render, serial, utils
+from .rules import ancestry, bits, cost, decode, dp, events, geom, purity, render, serial, utils
 
 RULES = {}
-for _m in (dp, decode, cost, events, purity, serial, utils, geom, render):
+for _m in (ancestry, bits, dp, decode, cost, events, purity, serial, utils, geom, render):
     RULES.update(_m.RULES)
 
 # construct prefixes
@@ -139,6 +139,11 @@ PROPERTY_RULES: Dict[str, List[Scoped]] = {
         _r("UPDATE-PAIRING"), _r("RETENTION-GUARDS"), _r("POLARITY"), _r("PROXY-NONE"), _r("COMBINE-PRODUCT"),
         _r("TABLE-FRESH-CELLS"),
     ],
+    "C17": [
+        _r("DERIVED-QUERIES"), _r("EULER-INDEX"), _r("RMQ-WINDOWS"),
+        _r("SOLVER-STATELESS", ("utils.trees:LowestCommonAncestor", "utils.trees:_euler", "utils.range_min_query:")),
+    ],
+    "C18": [_r("BIT-ORDER"), _r("SEGMENT-MACHINE"), _r("SENTINEL", S_SUBSEQ)],
     "C19": [
         _r("RESTORE-PAIRING"), _r("FRESH-STARTS"), _r("INDEG-INIT"), _r("GRAPH-KEYS"), _r("READONLY-GRAPH"),
         _r("EMPTY-RESULT-GUARD"),
@@ -422,6 +427,39 @@ PROPERTY_INFO: Dict[str, Dict] = {
         "in EntryProxy, structure of Entry.combine, freshness of table cells.",
         "decided": ["UPDATE-PAIRING, RETENTION-GUARDS, POLARITY (incl. every Entry(...) construction), PROXY-NONE, COMBINE-PRODUCT, TABLE-FRESH-CELLS"],
         "not_decided": ["that Python's comparison on infinity.Infinity is a total order (trusted)"],
+    },
+    "C17": {
+        "explanation": "Static analysis (ast): the derived ancestry queries are evaluated as decision tables over a "
+        "finite tree model with the LCA query and the level read as exact; the index discipline of the Euler "
+        "tour (first occurrence, half-open range, re-visit after each child, tuple components) and the window "
+        "algebra of the sparse table (2**e normalised symbolically) are checked as identities. Decides the "
+        "definitions of the derived queries given an exact LCA, and necessary index identities of the LCA / "
+        "range-minimum structures; does not decide the loop invariants of the sparse table as a whole.",
+        "decided": [
+            "is_ancestor_of / is_strict_ancestor_of / is_comparable / distance = their definitions, for every pair of nodes of the model, given exact LCA and level (DERIVED-QUERIES)",
+            "first-occurrence index, range [min, max + 1), node re-visited after each child at level + 1, (level, node) components (EULER-INDEX)",
+            "table level d = min of two adjacent half windows for every start with i + 2**d <= length; query windows start at `start` and end at `stop`; None iff start >= stop (RMQ-WINDOWS)",
+            "no state shared between instances or calls (SOLVER-STATELESS)",
+        ],
+        "not_decided": [
+            "that these identities imply exactness (induction over depth / tour positions)",
+            "LCA of more than two nodes; behaviour on nodes outside the tree",
+        ],
+    },
+    "C18": {
+        "explanation": "Static analysis (ast): the mask writer and readers must agree on bit order (symbolic "
+        "normal form of the shifted bit, shape of the scanning loops); the scanning loop of subseq_segment_dist "
+        "is extracted as a finite-state transition table over all Boolean valuations and compared with the run "
+        "counter the property describes, together with its initial state, final correction and scan length.",
+        "decided": [
+            "bit i <-> element i in writer and both readers; complete mask = 2**len - 1 (BIT-ORDER)",
+            "transition table, initial state, final correction and scan length of the run counter; -1 exactly on a foreign child bit or a longer child (SEGMENT-MACHINE)",
+            "the -1 conditions do not depend on the end mode (SENTINEL, producer side)",
+        ],
+        "not_decided": [
+            "that the machine's output equals the number of maximal runs (induction over the scan)",
+            "round-trip identity as a whole (value-level)",
+        ],
     },
     "C19": {
         "explanation": "Static analysis (ast): pairing of in-degree decrements and restores around the recursive "
